@@ -648,7 +648,7 @@ inline int unit_main(int argc, char** argv) {
     for (auto const& u : registry()) {
       if (u.ty == T_I32) { run_concrete_int<int32_t>(stdout, u, u.fi32, "i32", seed, count); continue; }
       if (u.ty == T_U32) { run_concrete_int<uint32_t>(stdout, u, u.fu32, "u32", seed, count); continue; }
-      run_concrete<float>(stdout, u, u.f32, "f32", seed, count);
+      if (u.f32) run_concrete<float>(stdout, u, u.f32, "f32", seed, count);   // (double-only units: C10 aligned configuration)
       if (u.f64) run_concrete<double>(stdout, u, u.f64, "f64", seed, count);
     }
     return 0;
@@ -661,7 +661,7 @@ inline int unit_main(int argc, char** argv) {
         for (int i = 0; i < u.nin; ++i) in[i] = (uint32_t)strtoull(argv[4 + i], 0, 10);
         if (u.ty == T_I32) u.fi32((int32_t const*)in.data(), (int32_t*)out.data()); else u.fu32(in.data(), out.data());
         for (int j = 0; j < u.nout; ++j) printf(" %u", out[j]);
-      } else if (!strcmp(argv[3], "f32")) {
+      } else if (!strcmp(argv[3], "f32") && u.f32) {
         std::vector<float> in(u.nin), out(u.nout);
         for (int i = 0; i < u.nin; ++i) { uint32_t b = (uint32_t)strtoull(argv[4 + i], 0, 10); std::memcpy(&in[i], &b, 4); }
         u.f32(in.data(), out.data());
